@@ -88,6 +88,17 @@ def run(data):
                 rec["equal_value"] = guarded(lambda: bool(Quantity(1, got) == Quantity(1, pu)))
                 return rec
             r = guarded(f)
+        elif op == "late_symbol":
+            # a text that already parses (prefix + symbol) is then registered as the exact symbol of a new unit:
+            # from then on str(new unit) is that text and it must parse back to the new unit
+            def f():
+                before_u = Unit.parse(c["text"])
+                q0 = Quantity.parse("3 " + c["text"])
+                new = Dimension._by_name[c["dim"]].unit(c["name"], c["text"])
+                back = Unit.parse(str(new)); backq = Quantity.parse("3 " + str(new)); ratio = Unit.parse(str(new) + "/s")
+                return {"parsed_before": C.unit(before_u), "str_new": str(new), "same": back is new, "quantity_same_unit": backq.unit is new,
+                        "in_ratio": new in ratio.factors or ratio is new}
+            r = guarded(f)
         elif op == "spellings":
             def f():
                 res = [guarded(lambda t=t: Unit.parse(t)) for t in c["texts"]]
